@@ -337,7 +337,8 @@ Section Handler.
     is_none (plugin h) && negb (is_complete (request h)) && (orc_calls h =? 0) && is_nil (ocd h) &&
     is_none (exc h) && negb (client_gone h).
 
-  (* the request is complete, a plugin was created and its on_request_complete ran exactly once;
+  (* the request is complete, a plugin was created and its on_request_complete ran exactly once
+     (the bytes behind the request, if any, were handed to on_client_data in the same call);
      the handler itself queued nothing *)
   Definition serving (h : handler) : bool :=
     negb (is_none (plugin h)) && is_complete (request h) && (orc_calls h =? 1) &&
